@@ -15,7 +15,7 @@ def NOT_REPRODUCED(msg=''):
 
 from fractions import Fraction as F
 from math import comb
-p = Path(Line((-1+0j), 0j), Line(0j, (-1-1j)), CubicBezier((-1-1j), 0j, 0j, (-1+0j)))
+p = Path(Line(-1j, 0j), Line(0j, (-1-1j)), QuadraticBezier((-1-1j), 0j, -1j))
 def pc(ps):
     n = len(ps) - 1; out = []
     for j in range(n + 1):
